@@ -14,6 +14,7 @@ Does not decide: map semantics under concrete histories.
 from __future__ import annotations
 
 import ast
+from typing import Dict
 
 from ..index import AnalysisError, Index, call_name, norm, walk_no_nested
 from ..report import Report
@@ -22,12 +23,38 @@ from ..rules import attr_mutations, cfg_of, guards_dominating, self_attr_stores
 ST = "model.state.UPState"
 
 
+def state_roles(m) -> Dict[str, str]:
+    """Locals of a UPState method by role: the cursor that walks the chain (starts at self, moves to ._father), the map
+    the chain is merged into (receives setdefault), and the (key, value) pair of a loop over a `….items()`."""
+    roles: Dict[str, str] = {}
+    fn = m.node
+    for a in walk_no_nested(fn):
+        tg = a.targets[0] if isinstance(a, ast.Assign) else (a.target if isinstance(a, ast.AnnAssign) else None)
+        if isinstance(tg, ast.Name) and getattr(a, "value", None) is not None:
+            if norm(a.value) == "self":
+                roles.setdefault(tg.id, "current_instance")
+            elif isinstance(a.value, ast.Attribute) and a.value.attr == "_father" and norm(a.value.value) == tg.id:
+                roles.setdefault(tg.id, "current_instance")
+    for c in walk_no_nested(fn):
+        if isinstance(c, ast.Call) and call_name(c) == "setdefault" and isinstance(c.func.value, ast.Name) and c.func.value.id not in fn.args.args[0].arg and c.func.value.id not in {a.arg for a in fn.args.args}:
+            roles.setdefault(c.func.value.id, "condensed_values")
+    for l in walk_no_nested(fn):
+        if isinstance(l, ast.For) and isinstance(l.target, ast.Tuple) and len(l.target.elts) == 2 and all(isinstance(x, ast.Name) for x in l.target.elts) and isinstance(l.iter, ast.Call) and call_name(l.iter) == "items":
+            names = ("fluent", "value") if m.name == "__init__" else ("k", "v")
+            for x, r in zip(l.target.elts, names):
+                roles.setdefault(x.id, r)
+    return roles
+
+
 def run(idx: Index, rep: Report, tier: str) -> None:
     rep.explanation = __doc__.strip()
     cls = idx.cls(ST)
+    from ..roles import with_roles
+
+    M = {name: with_roles(m, state_roles(m)) for name, m in cls.methods.items()}
     rule1 = "C36.1 T11 reads-do-not-write"
     for name in ("get_value", "make_child", "_is_nondefault"):
-        m = cls.methods.get(name)
+        m = M.get(name)
         if m is None:
             raise AnalysisError(f"anchor vanished: UPState.{name}")
         rep.note_function(m.qualname)
@@ -41,7 +68,7 @@ def run(idx: Index, rep: Report, tier: str) -> None:
     rep.check(ok, rule1, "_condense_state is reached only from __hash__/__repr__/__eq__", cls.loc(), construct=", ".join(sorted(callers)), detail="" if ok else "a read or update path rewrites the state's representation", function=cls.qualname)
 
     rule2 = "C36.2 T2 lookup-order"
-    gv = cls.methods["get_value"]
+    gv = M["get_value"]
     cfg = cfg_of(gv)
     body = [s for s in gv.node.body if not (isinstance(s, ast.Expr) and isinstance(s.value, ast.Constant))]
     kinds = []
@@ -70,7 +97,7 @@ def run(idx: Index, rep: Report, tier: str) -> None:
             rep.check(ok, rule2, "a value is returned only if it was found", gv.loc(n.ast), construct=norm(n.ast), function=gv.qualname)
 
     rule3 = "C36.3 make_child-updates-win"
-    mc = cls.methods["make_child"]
+    mc = M["make_child"]
     mcfg = cfg_of(mc)
     rets = [n for n in mcfg.nodes if n.kind == "return"]
     plain = [n for n in rets if isinstance(n.ast.value, ast.Call) and len(n.ast.value.args) == 3 and norm(n.ast.value.args[0]) == "updated_values" and norm(n.ast.value.args[2]) == "self"]
@@ -86,7 +113,7 @@ def run(idx: Index, rep: Report, tier: str) -> None:
     rep.check(ok, rule3, "the chain is flattened when there is no limit or the limit is reached", mc.loc(tests[0].ast) if tests else mc.loc(), construct=norm(tests[0].ast) if tests else "", function=mc.qualname)
 
     rule4 = "C36.4 T9 equality-and-hash"
-    eq, hs = cls.methods["__eq__"], cls.methods["__hash__"]
+    eq, hs = M["__eq__"], M["__hash__"]
     rep.note_function(eq.qualname)
     rep.note_function(hs.qualname)
     txt = norm(eq.node)
@@ -98,14 +125,14 @@ def run(idx: Index, rep: Report, tier: str) -> None:
     rep.check(ok, rule4, "__hash__ condenses before anything else", hs.loc(), construct="self._condense_state()", detail="" if ok else "the hash depends on how the valuation was reached", function=hs.qualname)
     ok = "self._values.items()" in norm(hs.node)
     rep.check(ok, rule4, "__hash__ reads the field __eq__ compares", hs.loc(), construct="self._values.items()", function=hs.qualname)
-    cs = cls.methods["_condense_state"]
+    cs = M["_condense_state"]
     rep.note_function(cs.qualname)
     t = norm(cs.node)
     ok = "condensed_values.setdefault(k, v)" in t and "current_instance = current_instance._father" in t and "_is_nondefault" in t
     rep.check(ok, rule4, "condensation keeps the youngest value per fluent and drops only default-valued entries", cs.loc(), construct="setdefault from self upwards; filter _is_nondefault", detail="" if ok else "condensation changes the valuation", function=cs.qualname)
     ok = "self._father = None" in t and "self._ancestors = 0" in t
     rep.check(ok, rule4, "after condensation the state has no father", cs.loc(), construct="self._father = None; self._ancestors = 0", function=cs.qualname)
-    init = cls.methods["__init__"]
+    init = M["__init__"]
     it = norm(init.node)
     ok = "_father is not None or self._is_nondefault(fluent, value)" in it
     rep.check(ok, rule4, "a root state stores only non-default values; a child stores every update (a default-valued update must shadow the ancestor)", init.loc(), construct="if _father is not None or self._is_nondefault(fluent, value)", detail="" if ok else "an update that sets a fluent back to its default is dropped and the ancestor's older value shows through", function=init.qualname)
